@@ -313,9 +313,17 @@ def m3_probe(F, R, tadt, hadt, name_of, verfield):
     ctors = [b for b in F.bodies.values() if b.get('impl_adt') == tadt and 'impl_trait' not in b and F.handwritten(b) and b['kind'] == 'AssocFn'
              and 'Result<' in b.get('sig', '') and 'Self' not in b.get('name', '')]
     probe = None
+    # the constructor that reads the identification registers (directly or through private helpers) and does not
+    # itself delegate to another such constructor
+    reading, callees = [], {}
     for b in ctors:
-        sg = supergraph(F, b['id'], tag='flat', max_depth=0)
+        flat = supergraph(F, b['id'], tag='flat', max_depth=0)
+        callees[b['id']] = {n.d.get('fn') for n in flat.calls()}
+        sg = supergraph(F, b['id'])
         if any('safe_mmio' in (n.d.get('fn') or '') and n.d['fn'].endswith('::read') for n in sg.calls()):
+            reading.append(b)
+    for b in reading:
+        if not any(o['id'] in callees[b['id']] for o in reading if o is not b):
             probe = b
     if not probe:
         raise Undecided('probe function of the MMIO transport not found')
